@@ -156,6 +156,9 @@ class Evaluator(object):
         self.context_of = {}
         # callable(Sym) -> bool: does the name denote a class
         self.sym_is_class = None
+        # calling a class name that has an entry in class_methods creates
+        # an Obj and runs its __init__
+        self.instantiate_classes = False
         # evaluate the operand of `raise` (Raised.value); off by default
         self.evaluate_raises = False
         # names bound to plain python values (stand-ins for imported
@@ -273,9 +276,7 @@ class Evaluator(object):
             if isinstance(it, Unknown):
                 self.err(st, 'loop over unknown')
             if isinstance(it, Obj):
-                if self.iter_hook is None:
-                    self.err(st, 'iteration over an abstract object')
-                it = self.iter_hook(it)
+                it = self.iterate(it, st)
             broke = False
             for item in it:
                 self.assign(st.target, item, env)
@@ -316,6 +317,16 @@ class Evaluator(object):
                         del obj[lo:hi]
                     else:
                         del obj[self.expr(t.slice, env)]
+                elif isinstance(t, ast.Attribute):
+                    obj = self.expr(t.value, env)
+                    if not isinstance(obj, Obj):
+                        self.err(st, 'del on non-object')
+                    hook = self.class_methods.get(
+                        obj.__dict__['_cls'], {}).get('__delattr__')
+                    if hook is not None:
+                        self.call(hook, [t.attr], self_obj=obj)
+                    else:
+                        obj.__dict__['_fields'].pop(t.attr, None)
                 else:
                     self.err(st, 'unsupported del target')
             return
@@ -402,6 +413,11 @@ class Evaluator(object):
             obj = self.expr(target.value, env)
             if not isinstance(obj, Obj):
                 self.err(target, 'store on non-object')
+            hook = self.class_methods.get(obj.__dict__['_cls'], {}).get(
+                '__setattr__')
+            if hook is not None and not self._in_hook(hook, obj):
+                self.call(hook, [target.attr, val], self_obj=obj)
+                return
             setattr(obj, target.attr, val)
         elif isinstance(target, ast.Tuple):
             vals = list(val)
@@ -423,6 +439,22 @@ class Evaluator(object):
             self.err(target, 'unsupported assignment target')
 
     # -- expressions -----------------------------------------------------
+
+    def iterate(self, obj, node):
+        if self.iter_hook is not None:
+            return self.iter_hook(obj)
+        fd = self.class_methods.get(obj.__dict__['_cls'], {}).get(
+            '__iter__')
+        if fd is None:
+            self.err(node, 'iteration over an abstract object')
+        ret, ys = self.call(fd, [], self_obj=obj)
+        return ys if is_generator(fd) else ret
+
+    def _in_hook(self, hook, obj):
+        """is `hook` already running (a store inside __setattr__ itself
+        would recurse in python too, but the analysed code uses super()
+        there; plain stores inside the hook are taken as direct)"""
+        return any(fd is hook for fd in self._callstack)
 
     def truth(self, v, node):
         if isinstance(v, Unknown):
@@ -499,6 +531,16 @@ class Evaluator(object):
         if isinstance(base, tuple) and base and base[0] == 'super':
             fd = self._super_lookup(base[2], e.attr)
             if fd is None:
+                obj_ = base[1]
+                if e.attr == '__setattr__':
+                    return ('pyfunc', lambda k, v: setattr(obj_, k, v))
+                if e.attr == '__getattribute__':
+                    return ('pyfunc', lambda k: getattr(obj_, k))
+                if e.attr == '__delattr__':
+                    return ('pyfunc', lambda k: obj_.__dict__['_fields'].pop(
+                        k, None))
+                if e.attr == '__init__':
+                    return ('pyfunc', lambda *a, **k: None)
                 self.err(e, 'super() has no attribute')
             return ('method', fd, base[1])
         if isinstance(base, Obj):
@@ -528,6 +570,12 @@ class Evaluator(object):
                     return self.module.fold_name(e.attr, self.clsname)
                 except Unfoldable:
                     pass
+            hook = cm.get('__getattr__')
+            if hook is not None and not self._in_hook(hook, base):
+                ret, _ = self.call(hook, [e.attr], self_obj=base)
+                return ret
+            if e.attr == '__class__':
+                return Obj('type', __name__=base.__dict__['_cls'])
             self.err(e, 'abstract object lacks attribute')
         if isinstance(base, RegexConst) and e.attr in (
                 'match', 'sub', 'search', 'split', 'findall', 'fullmatch',
@@ -681,9 +729,7 @@ class Evaluator(object):
             g = gens[0]
             it = self.expr(g.iter, env)
             if isinstance(it, Obj):
-                if self.iter_hook is None:
-                    self.err(e, 'iteration over an abstract object')
-                it = self.iter_hook(it)
+                it = self.iterate(it, e)
             for item in list(it):
                 sub = dict(env)
                 self.assign(g.target, item, sub)
@@ -743,6 +789,22 @@ class Evaluator(object):
             self.module, self.clsname = saved_ctx
         return ys if gen else ret
 
+    def as_callable(self, v):
+        """closures handed to python stand-ins (key=lambda ...) become
+        python callables"""
+        if isinstance(v, tuple) and v and v[0] == 'closure':
+            return lambda *a, **k: self.call_closure(v, list(a), k)
+        return v
+
+    def x_Lambda(self, e, env):
+        fd = ast.FunctionDef(
+            name='<lambda>', args=e.args,
+            body=[ast.Return(value=e.body)], decorator_list=[],
+            returns=None, type_comment=None)
+        ast.copy_location(fd, e)
+        ast.fix_missing_locations(fd)
+        return ('closure', fd, env, self.module, self.clsname)
+
     def x_Yield(self, e, env):
         self.yielded.append(self.expr(e.value, env) if e.value else None)
         return None
@@ -800,8 +862,12 @@ class Evaluator(object):
             if n == 'super' and n not in env and self._callstack:
                 cur = self._callstack[-1]
                 owner = None
+                if len(e.args) == 2 and isinstance(e.args[0], ast.Name) \
+                        and e.args[0].id in self.class_own:
+                    owner = e.args[0].id
                 for c, ms in self.class_own.items():
-                    if any(fd is cur for fd in ms.values()):
+                    if owner is None and any(
+                            fd is cur for fd in ms.values()):
                         owner = c
                 if owner is None or 'self' not in env:
                     self.err(e, 'super() outside a known class')
@@ -839,6 +905,12 @@ class Evaluator(object):
         if isinstance(f, tuple) and f[0] == 'closure':
             return self.call_closure(f, args, kwargs, e)
         if isinstance(f, tuple) and f[0] == 'pyfunc':
+            if 'key' in kwargs:
+                kwargs = dict(kwargs, key=self.as_callable(kwargs['key']))
+            if f[1] in (list, tuple, sorted, set, frozenset, sum, any, all,
+                        min, max, enumerate, zip) and args and isinstance(
+                    args[0], Obj):
+                args[0] = self.iterate(args[0], e)
             return f[1](*args, **kwargs)
         if isinstance(f, tuple) and f[0] == 'regex':
             rx = re.compile(f[1].pattern, f[1].flags)
@@ -864,6 +936,12 @@ class Evaluator(object):
                 fd = self.module.functions[f.name]
                 ret, ys = self.call(fd, args, kwargs)
                 return ys if is_generator(fd) else ret
+            if self.instantiate_classes and f.name in self.class_methods:
+                obj = Obj(f.name)
+                init = self.class_methods[f.name].get('__init__')
+                if init is not None:
+                    self.call(init, args, kwargs, self_obj=obj)
+                return obj
             if self.inline_module_functions and f.module and \
                     f.module != self.module.name and \
                     getattr(self.module, 'index', None) is not None:
